@@ -20,8 +20,6 @@ import (
 )
 
 const (
-	ltInterval = 10 * time.Second
-	ltT6       = 3 * time.Second
 	delta      = 100 * time.Millisecond // T−δ / T+δ
 	midT6      = 1 * time.Second        // "between the probe and its T6 expiry"
 	libSession = 0x0101
@@ -31,13 +29,29 @@ const (
 )
 
 type e2Cfg struct {
-	Active    bool `json:"active"`
-	Threshold int  `json:"threshold"`
-	Suppress  bool `json:"suppress"`
+	Active     bool `json:"active"`
+	Threshold  int  `json:"threshold"`
+	Suppress   bool `json:"suppress"`
+	IntervalMs int  `json:"interval_ms,omitempty"` // 0 = 10 s
+	T6Ms       int  `json:"t6_ms,omitempty"`       // 0 = 3 s
+}
+
+func (c e2Cfg) interval() time.Duration {
+	if c.IntervalMs == 0 {
+		return 10 * time.Second
+	}
+	return time.Duration(c.IntervalMs) * time.Millisecond
+}
+
+func (c e2Cfg) t6() time.Duration {
+	if c.T6Ms == 0 {
+		return 3 * time.Second
+	}
+	return time.Duration(c.T6Ms) * time.Millisecond
 }
 
 func (c e2Cfg) String() string {
-	return fmt.Sprintf("active=%v threshold=%d suppression=%v interval=%v T6=%v", c.Active, c.Threshold, c.Suppress, ltInterval, ltT6)
+	return fmt.Sprintf("active=%v threshold=%d suppression=%v interval=%v T6=%v", c.Active, c.Threshold, c.Suppress, c.interval(), c.t6())
 }
 
 // e2Case: Script is a string over {A,I,S,L,B,D,W,R}, one letter per round.
@@ -89,6 +103,7 @@ type timeline struct {
 // a fire while a reply is outstanding is skipped and re-armed one interval later.
 func simulate(cfg e2Cfg, script string, tSel time.Duration, tail bool) timeline {
 	var tl timeline
+	ltInterval, ltT6 := cfg.interval(), cfg.t6()
 	tr := ref.Tracker{Suppress: cfg.Suppress, Threshold: cfg.Threshold}
 	fire := tSel + ltInterval
 	lastAct, lastRecv := tSel, tSel
@@ -230,6 +245,10 @@ func fmtTimes(ts []time.Duration) string {
 
 func runE2(t *testing.T, ec e2Case) (obs observation, fails []failure, harness string, leak string) {
 	cfg := ec.Cfg
+	ltInterval, ltT6 := cfg.interval(), cfg.t6()
+	if ltT6 <= midT6+delta || ltInterval <= midT6+delta {
+		return obs, nil, "timing configuration too tight for the no-ties rule", ""
+	}
 	bad := func(key, format string, a ...any) {
 		for _, f := range fails {
 			if f.key == key {
@@ -540,7 +559,7 @@ func checkE2(c *vfw.Ctx, t *testing.T, ec e2Case) {
 		out = fmt.Sprintf("e2:drop:timeouts=%d:credits=%d:answers=%d", tl.Timeouts, tl.Credits, tl.Answers)
 	}
 	c.Outcome(out)
-	if c.WantSample() && len(ec.Script) >= 3 && strings.ContainsAny(ec.Script, "BDW") {
+	if c.WantSample() && len(ec.Script) >= 3 && tl.Drops && (tl.Credits > 0 || tl.Suppressed > 2) {
 		c.Sample(map[string]any{"config": ec.Cfg.String(), "script": ec.Script, "selected_at": obs.TSel.String(),
 			"probes": fmtTimes(obs.Probes), "dropped": obs.Dropped, "drop_at": obs.DropAt.String(),
 			"metrics_send_recv_err_credited_suppressed": obs.Metrics})
@@ -596,21 +615,33 @@ func partE2(c *vfw.Ctx, t *testing.T) {
 	if c.Thorough() {
 		extra = 2
 	}
-	for _, thr := range []int{1, 2, 3} {
-		for _, sup := range []bool{true, false} {
-			for _, active := range []bool{false, true} {
-				cfg := e2Cfg{Active: active, Threshold: thr, Suppress: sup}
-				nodes := scripts(cfg, thr+extra, thr+extra+1, func(s string) {
-					if !c.Next() {
-						return
+	// timing configurations: interval 10 s / T6 3 s everywhere; thorough adds an interval
+	// SHORTER than T6 (2 s / 3 s), where a probe round outlasts the interval
+	timings := [][2]int{{0, 0}}
+	if c.Thorough() {
+		timings = append(timings, [2]int{2000, 3000})
+	}
+	for ti, tm := range timings {
+		for _, thr := range []int{1, 2, 3} {
+			for _, sup := range []bool{true, false} {
+				for _, active := range []bool{false, true} {
+					cfg := e2Cfg{Active: active, Threshold: thr, Suppress: sup, IntervalMs: tm[0], T6Ms: tm[1]}
+					full, longest := thr+extra, thr+extra+1
+					if ti > 0 {
+						full, longest = thr+1, thr+2
 					}
-					if c.Expired() {
-						return
+					nodes := scripts(cfg, full, longest, func(s string) {
+						if !c.Next() {
+							return
+						}
+						if c.Expired() {
+							return
+						}
+						checkE2(c, t, e2Case{Cfg: cfg, Script: s})
+					})
+					if c.Shard == 0 {
+						c.Graph(nodes, nodes-1, 0)
 					}
-					checkE2(c, t, e2Case{Cfg: cfg, Script: s})
-				})
-				if c.Shard == 0 {
-					c.Graph(nodes, nodes-1, 0)
 				}
 			}
 		}
